@@ -194,7 +194,15 @@ func c08Instance(c *fw.Ctx, kind c08Kind, mtu int, inputs [][]byte, inKinds []st
 		}
 		return m
 	}
+	mtu0 := mtu
 	for call, in := range inputs {
+		if len(inputs) >= 2 && len(inKinds[0])%3 == 0 {
+			// the MTU is an argument of every call: nothing derived from it may be carried over from an earlier call
+			mtu = []int{mtu0, mtu0 + 7, mtu0/2 + 1, mtu0 + 1}[call%4]
+			if mtu > 65535 {
+				mtu = 65535
+			}
+		}
 		// A gets a private copy it may keep forever; B gets one that is overwritten after the call
 		inA := fw.Exact(in)
 		inB := fw.Exact(in)
